@@ -136,7 +136,7 @@ RECURSIVE ConvSum(_, _, _, _, _)
 ConvSum(X, Wt, r, c, k) ==      \* k runs over the kernel entries in row-major order
   IF k > Rows(Wt) * Cols(Wt) THEN Q(0)
   ELSE LET i == (k - 1) \div Cols(Wt) + 1
-           j == (k - 1) % Cols(Wt) + 1
+           j == ((k - 1) % Cols(Wt)) + 1
        IN Add(Mul(Wt[i][j], X[r + i - 1 - HalfR(Wt)][c + j - 1 - HalfC(Wt)]), ConvSum(X, Wt, r, c, k + 1))
 
 ConvCell(X, Wt, r, c) ==
